@@ -22,7 +22,7 @@ def make_cases(tier, seed):
 def steered_cases(tier, seed):
     """histories padded until the closing break is written with the staging buffer exactly full / one byte short
     (fill level observed through the encoder hook); the break is written by rotate_output or by destruction"""
-    n = 12 if tier == 'quick' else 120
+    n = 18 if tier == 'quick' else 120
     templ = []
     for i in range(n):
         r = gen.seeded(seed, 'C13s', i)
@@ -30,8 +30,9 @@ def steered_cases(tier, seed):
         how = 'rotate' if i % 3 else 'destroy'
         pre = gen.gen_preamble(r, nbps=1, maxi=10000, hints=(gen.ALL_QRH, gen.ALL_SIGH, 3, 3), tps=1000)
         pre['bps'][0].pop('cp', None)
-        comp = r.choice(['none', 'gzip', 'xz'])
-        kind = r.choice(['name', 'fd'])
+        comp = ['none', 'gzip', 'xz'][i % 3]
+        kind = ['fd', 'name'][(i // 3) % 2]
+        how = 'rotate' if (i // 6) % 3 != 2 else 'destroy'
         P = gen.Pools(r)
         recs = [{'op': 'qr', 'r': gen.gen_qr(r, P, 1000, 10 ** 9, 'full')} for _ in range(r.choice([1, 3, 9]))]
         templ.append(dict(i=i, target=target, how=how, pre=pre, comp=comp, kind=kind, recs=recs, pad=r.randrange(0, 64), done=False))
